@@ -126,6 +126,7 @@ type Worker struct {
 	pathsSinceReset int
 	local *[][]int16
 	memo  map[string]Value
+	tag   string
 	lastClockSec, lastClockNsec *Term
 	clockReads [][2]*Term
 }
@@ -614,7 +615,11 @@ func (w *Worker) report(f *Finding, model map[string]uint64) {
 }
 
 func (w *Worker) frameViolation(ip *Interp, o *Obj, site, what string) {
-	w.report(&Finding{Kind: "frame", ID: "frame", Site: site, Msg: fmt.Sprintf("%s into frozen object (%s, epoch %d)", what, o.Site, o.Epoch)}, nil)
+	id := "frame"
+	if w.tag != "" {
+		id = "frame:" + w.tag
+	}
+	w.report(&Finding{Kind: "frame", ID: id, Site: site, Msg: fmt.Sprintf("%s into frozen object (%s, epoch %d)", what, o.Site, o.Epoch)}, nil)
 }
 
 func (ex *Explorer) push(p []int16) {
@@ -791,6 +796,7 @@ func (w *Worker) runPath(prefix []int16) {
 	w.lastModel = nil
 	w.sched = nil
 	w.memo = nil
+	w.tag = ""
 	w.lastClockSec, w.lastClockNsec, w.clockReads = nil, nil, nil
 	mark := len(ip.journal)
 	ip.Steps = 0
